@@ -11,6 +11,7 @@
   the children returns (never raises) the model's answer on the node: same messages, same order.
 -/
 import Luqum.Generated.Checks
+import Luqum.Props.C20
 
 namespace Luqum.Props.GenCheck
 open Luqum Generated
@@ -428,6 +429,20 @@ theorem luceneCheck_is_generated (zeal : Nat) (t : Tree) :
 theorem check_never_raises (zeal : Nat) (ps : List Tree) (t : Tree) :
     ∃ msgs, genCheck (recOf zeal) Tree.str (zeal != 0) ps t = .ok msgs :=
   ⟨_, check_is_generated zeal ps t⟩
+
+/-- **C20 for the translated code**: the translated checker applied to the root (the model's checker standing for the
+checks of the children, as justified by `check_is_generated` at every node below) returns no message exactly for the
+trees of the class `WF` of Props/C20 -- those assembled only from well-formed constructs -/
+theorem translated_check_accepts_iff_wf (zeal : Nat) (t : Tree) :
+    genCheck (recOf zeal) Tree.str (zeal != 0) [] t = .ok [] ↔ Luqum.Props.C20.WF zeal false false t = true := by
+  rw [check_is_generated]
+  have h := Luqum.Props.C20.checkErrors_nil_iff zeal t []
+  simp only [Lemmas.Check.afterField_nil, Lemmas.Check.underOr_nil] at h
+  constructor
+  · intro e
+    exact h.1 (by injection e)
+  · intro w
+    rw [h.2 w]
 
 theorem check_names_complete : Checks.checkNames.length = 20 := by decide
 
